@@ -22,7 +22,7 @@ result = {}
 try:
     shutil.copytree(src, os.path.join(wt, 'seeded'))
     patch = os.path.join(wt, 'seeded', 'patch.diff')
-    demo = next(f for f in os.listdir(src) if f.startswith('demo'))
+    demo = next(f for f in sorted(os.listdir(src)) if f.startswith('demo') and f.endswith('.py'))
     if demo.endswith('_test.py') or demo.startswith('demo_test'):
         demo_cmd = ['/venv/bin/python', '-m', 'pytest', '-q', '-p', 'no:cacheprovider', f'seeded/{demo}']
     else:
